@@ -24,7 +24,7 @@ P = {
  "C05": ("Theorems C05_contract (per-kind: keeps every supported value, only shrinks, records events, checks fixed tuples, reads only its triggers), C05_fixpoint_keeps_solutions, C05_fixpoint_shrinks, C05_fixed_checked for any schedule/agenda; counterexamples for the two findings. Tie: every kind's prune compared exactly (result, all domains, events, triggers) on random and exhaustive domain tuples, incl. prune/tighten/prune sequences.",
          "Lean 4 proof (per-kind contract lemmas, fixpoint theorems) with differential correspondence",
          "Kinds not yet in PK (alldiff, element, table, count, cardinality, between, if-then-else, div, modulo, mul, allequal, float linear) are not covered by theorems in this revision."),
- "C12": ("Theorems C12_trySetMin_int_exact / C12_trySetMax_int_exact: exact filter semantics, failure iff empty remainder, event iff change, frame. Tie: ctx.min/ctx.max ops through hook H1 compared exactly, plus set-filter oracle.",
+ "C12": ("Integer arms: C12_trySetMin_int_exact / C12_trySetMax_int_exact: exact filter semantics, failure iff empty remainder, event iff change, frame. Float arms (Props/C12Float.lean, exact rationals): never widens, outward-safe (a value one step inside the bound is kept), no inverted interval, event iff change, failure only across a gap; float bound on an integer variable exact; FloatInterval primitives (round/floor/ceil to step, next/prev, mid, remove_below/above) stay inside and are monotone; counterexample + partial theorem for the integer-bound-on-float-variable arm (recorded finding). Tie: ctx.min/ctx.max ops through hook H1 and every FloatInterval method compared bit-for-bit, exhaustive over a small grid universe; set-filter oracle.",
          "Lean 4 proof (case analysis on the modelled try_set_min/max) with differential correspondence",
          "Integer arms only in this revision; float arms and FloatInterval primitives are validated by correspondence later."),
  "C13": ("Theorems C13_view_min_max, C13_view_trySetMin_exact / Max_exact (structural induction: any nesting depth), C13_times_wf. Tie: view ops of depth ≤ 2 compared exactly; exhaustive over small universes; image-filter oracle.",
@@ -39,6 +39,18 @@ P = {
  "C09": ("Certificate theory at exact rationals for all dimensions: C09_weak_duality, C09_legal_optimal_is_optimal (+ tolerance version), C09_standard_form_equiv (lower-bound shift and upper-bound slack rows), C09_optimal, C09_phase1_infeasible, C09_infeasible_vacuous (no return site carries LpStatus::Infeasible), dual/warm-start form: partial theorem + counterexamples. Tie: for every LP the harness prints data (bit patterns), status, x, objective and the returned basis; the Lean driver recomputes x_B and y from the basis by exact elimination and evaluates the verified checker; an independent exact vertex-enumeration oracle decides feasibility/optimality of the implementation's answer.",
          "Lean 4 proof (LP duality / certificate checking over Rat) with per-run certificate validation and exact-arithmetic oracle",
          "The pivoting rules and LU factorisation are not modelled; legality of each terminal state is validated per run, not proved for all runs."),
+ "C06": ("Theorems over exact rationals for the float/int linear propagators and float bound setters (Model/FloatCore.lean, generic in the number type so that the very same definitions run on f64 in the driver): C06_int_vars_exact (+ _view): integer variables in mixed rows keep exact integer domains; C06_float_kind_step_kept; C06_float_checking_tol: at a fixpoint without events every row holds up to |c_i|*max(3 step, 1e-5|bound|) + sum |c_j| width_j; kernel-checked counterexamples for the recorded findings (row over integer variables only is unchecked, the tolerance is necessary). Tie: every float primitive, ctx.try_set_min/max float arms and FloatLin prune compared bit-for-bit; API-level witness stream (oracle on returned solutions: bounds, integrality, row residuals, var-var comparisons not ignored).",
+         "Lean 4 proof over exact rationals (same generic definitions run on f64) with bit-exact differential correspondence",
+         "IEEE rounding is outside the theorems (trusted: correspondence on bit patterns); float views and non-linear float constraints are covered by the oracle stream only; the var-var comparison clause is false of the code (known finding float-varvar-cmp-ignored)."),
+ "C07": ("Theorems: C07_trysetmin/max_keeps_margin, _keeps_grid, C07_floatlin_le_sound_margin (a witness with margin >= max|c_i| step_i survives every FloatLinLe prune), C07_floatlin_eq_sound_exact (exact equality at grid points, integer variables included), C07_floatlin_sound_margin and C07_propagation_never_fails (any sequence of rows never fails while the witness exists); counterexample: zero margin is not enough. Tie: as C06, plus the API-level stream builds models AROUND a witness and requires solve() != NoSolution.",
+         "Lean 4 proof over exact rationals (witness-preservation invariant through any propagation sequence) with bit-exact differential correspondence",
+         "FloatLinNe and the reified float helpers are not covered by the theorems; IEEE rounding trusted via correspondence."),
+ "C16": ("Theorems: C16_model_deterministic / C16_results_deterministic (the modelled search is a function of the model), permutation-invariance of every hash-ordered collection consumed on the solving path (registry queries sorted after collection, all-different validation under an adversary that reshuffles at every step, distinct counts, Hall removals commute, keyed access), C16_no_clock_in_result/_optimum/_enumeration (the clock only feeds limit tests); counterexamples for two public helpers that ARE order dependent (SparseSetGAC, create_precision_propagators). Tie: each generated call is run twice in fresh threads and in several separate OS processes (different SipHash keys); transcripts must be byte-identical.",
+         "Lean 4 proof (permutation invariance of order-blind consumers) plus observed byte-identical transcripts across threads and OS processes",
+         "Cross-process equality is observed on generated models, not proved; the site audit (every HashMap/HashSet iteration in src/) is by hand and listed in Lemmas/Determ.lean."),
+ "C18": ("Theorems for all 9x9 grids: naked_single_sound, hidden_single_sound (row/col/box, via the pigeonhole lemma unit_contains_every_digit), posted_sound (every posted cell==digit holds in every valid completion), naked_pairs_no_effect, events_closed_form, verify_solution_iff_valid, C18_sound_complete_partial (guard: clues in 0..9): the valid completions are exactly the solutions of domains + 27 all-different + posted singles, C18_posted_redundant, C18_end_to_end (sound, complete and agreeing with the general solver, parametric in a general solver satisfying C01-C03); counterexamples for the two findings. Tie: candidate tables, technique passes, the complete posted-event trace (hook H8) and results compared exactly; brute-force referee search as oracle.",
+         "Lean 4 proof (soundness of every elimination rule for all grids) with differential correspondence of the event trace",
+         "The general solver's answer is an input of the model; its correctness is C01-C03's subject."),
  "C10": ("Theorems about the lowering model (Model/Lower.lean) for all expression trees: Expr.build_eval (smart constructors / constant folding / identities preserve evaluation), extractLinear_sound, linearise_sound, materializeLin_sem, applyVarEqBounds_sound, C10_linear_fragment (posting + lowering a list of simple comparisons yields propagators whose joint meaning is exactly the conjunction of the trees), C10_and_vv_sem, C10_or_same_var_sound, C10_aux_vars_partial (auxiliary variables are functionally determined, inside the inferred range); kernel-checked counterexamples for the recorded findings (or lowered as and, not ignored, nested != unchecked, auxiliary variable clipped). Tie: hook H2 returns the code's own lowered (Vars, Propagators) for random expression trees; compared exactly with the model's lowering, and the enumerated solution set is compared with direct evaluation of the tree.",
          "Lean 4 proof (translation correctness by structural induction over expression trees) with differential correspondence of the lowering",
          "Float operands and the mul/div/mod auxiliary constraints are covered by the correspondence and the API-level oracle, not by the linear-fragment theorem."),
